@@ -9,7 +9,7 @@ import ast
 
 from ..program import AnalysisError, walk_local, dotted
 from ..analysis import Spec, src, const_value
-from ..rules import (inside, before, GWF, EXC, mpt, need_func, need_call, stores_to,
+from ..rules import (canon, inside, before, GWF, EXC, mpt, need_func, need_call, stores_to,
                      parent_map, outcomes, explicit_exits, strip_wrappers,
                      chained_assign_value, raise_class)
 from . import common
@@ -51,49 +51,96 @@ def tips_refreshed(prog, an, rep):
     moved source OR target produce a new tip (hence NOTSTARTED)."""
     R = 'C06.MPT.tips-refreshed'
     f = need_func(an, GWF + '.integration.update_integration_branches')
-    u = f.nested.get('update')
-    if u is None:
-        raise AnalysisError('anchor-missing update helper in ' + f.qname)
-    c = an.cfg(u)
     helpers = ('bert_e.workflow.git_utils.consecutive_merge',
                'bert_e.workflow.git_utils.robust_merge')
+
+    def helper_calls(unit):
+        return [x for x in prog.calls_in(unit)
+                if prog.callee(unit, x)[0] == 'func' and
+                prog.callee(unit, x)[1] in helpers]
+    # the re-merge lives in the nested update() closure, or (when that was
+    # folded into its caller) in the loop of the function itself
+    units = [g for g in f.nested.values() if helper_calls(g)] or \
+        ([f] if helper_calls(f) else [])
+    if not units:
+        raise AnalysisError('anchor-missing merge helper calls in ' +
+                            f.qname)
+    u = units[0]
+    c = an.cfg(u)
     done = []
     n = 0
+    preds = set()
     for nd in c.nodes.values():
         if nd.kind != 'stmt':
             continue
         for x in ast.walk(nd.ast):
-            if isinstance(x, ast.Call):
-                cal = prog.callee(u, x)
-                if cal[0] == 'func' and cal[1] in helpers:
-                    n += 1
-                    done += c.done_of(nd)
-                    args = [src(a) for a in x.args]
-                    w, s_ = u.params[0], u.params[1]
-                    rep.check(args == [w, w + '.dst_branch', s_], R,
-                              u.qname + ': merges the target and the '
-                              'predecessor into the integration branch',
-                              u.where(x), 'merge helper called with %s' %
-                              args)
+            if isinstance(x, ast.Call) and x in helper_calls(u):
+                n += 1
+                done += c.done_of(nd)
+                args = [src(a) for a in x.args]
+                ok = len(args) == 3 and args[1] == args[0] + '.dst_branch' \
+                    and isinstance(x.args[2], ast.Name) and \
+                    isinstance(x.args[0], ast.Name)
+                if ok and u is not f:
+                    ok = args[0] == u.params[0] and args[2] == u.params[1]
+                if ok:
+                    preds.add((args[0], args[2]))
+                rep.check(ok, R, u.qname + ': merges the target and the '
+                          'predecessor into the integration branch',
+                          u.where(x), 'merge helper called with %s' % args)
     rep.floor('C06 merge helper calls in update()', n, 2)
     rep.evaluated()
-    ok, path = c.must_pass(done, c.exit, use_exc=False)
-    rep.check(ok, R, u.qname + ': every normal return has re-merged target '
-              'and predecessor', u.where(), 'update() can return without '
-              'merging: a moved target (or source) leaves the old tip and '
-              'its stale build status in place', path=c.describe_path(path))
-    # and it is applied to every child, chained
+    if u is not f:
+        ok, path = c.must_pass(done, c.exit, use_exc=False)
+        rep.check(ok, R, u.qname + ': every normal return has re-merged '
+                  'target and predecessor', u.where(), 'update() can return '
+                  'without merging: a moved target (or source) leaves the '
+                  'old tip and its stale build status in place',
+                  path=c.describe_path(path))
+        calls = [x for x in prog.calls_in(f)
+                 if prog.callee(f, x) == ('func', u.qname)]
+    else:
+        calls = helper_calls(f)
+    # and it is applied to every later integration branch, chained
     cf = an.cfg(f)
-    calls = [x for x in prog.calls_in(f)
-             if prog.callee(f, x) == ('func', u.qname)]
     loops = [lp for lp in walk_local(f.node, include_root=False)
              if isinstance(lp, ast.For) and any(
                  x in calls for x in ast.walk(lp))]
-    ok = len(calls) == 1 and len(loops) == 1 and \
-        'children' in src(loops[0].iter) and \
-        [src(a) for a in calls[0].args] == [
-            [t.id for t in ast.walk(loops[0].target)
-             if isinstance(t, ast.Name)][-1], 'prev']
+    ok = len(loops) == 1 and (len(calls) == 1 or u is f)
+    if ok:
+        lp = loops[0]
+        lv = [t.id for t in ast.walk(lp.target) if isinstance(t, ast.Name)]
+        rest = {st.targets[0].elts[1].value.id
+                for st in walk_local(f.node, include_root=False)
+                if isinstance(st, ast.Assign) and
+                isinstance(st.targets[0], ast.Tuple) and
+                len(st.targets[0].elts) == 2 and
+                isinstance(st.targets[0].elts[1], ast.Starred)}
+        ok = any(r in src(lp.iter) for r in rest)
+        if u is not f:
+            a0 = [src(a) for a in calls[0].args]
+            ok = ok and len(a0) == 2 and a0[0] == lv[-1] and \
+                isinstance(calls[0].args[1], ast.Name)
+            prevs = {a0[1]} if len(a0) == 2 else set()
+            site_done = [d for nd in cf.nodes.values() if nd.kind == 'stmt'
+                         and any(x is calls[0] for x in ast.walk(nd.ast))
+                         for d in cf.done_of(nd)]
+        else:
+            ok = ok and all(w == lv[-1] for w, _ in preds)
+            prevs = {p_ for _, p_ in preds}
+            site_done = done
+        # every iteration re-merges, and the predecessor advances to the
+        # branch just updated
+        head = cf.stmt_node[id(lp)]
+        for s0 in [s_ for s_ in cf.succ[head]
+                   if cf.nodes[s_].kind == 'true']:
+            if cf.path(s0, head, removed=set(site_done), use_exc=False):
+                ok = False
+        for pv in prevs:
+            adv = [st for st, v in stores_to(f, pv)
+                   if v is not None and src(v) == lv[-1] and
+                   inside(lp, st)]
+            ok = ok and len(adv) == 1
     rep.evaluated()
     rep.check(ok, R, f.qname + ': update(branch, prev) for every later '
               'integration branch', f.where(), 'update is applied as %s in '
@@ -480,7 +527,7 @@ def integration_vector(prog, an, rep):
                     cal = prog.callee(f, v)
                     if cal[0] == 'class' and \
                             cal[1].endswith('.GhostIntegrationBranch'):
-                        args = ' '.join(src(a) for a in v.args)
+                        args = ' '.join(canon(f, a) for a in v.args)
                         if 'src_branch' in args:
                             ghost_ok = True
     rep.check(ghost_ok, R, f.qname + ': source tip is the first element',
